@@ -542,15 +542,15 @@ def postponed_annotation_probes(R: Recorder) -> None:
 def alias_spelling_probes(R: Recorder, N: Any) -> None:
     """one type, two spellings of it as a type argument of a generic State: through a type alias (`Box[IntOrStr]`, `Box[Names]`,
     `Box[MaybeSeq[int]]`) in the annotation, written out (`Box[int | str]`, ...) where the value is made - and the other way round"""
-    N.define("class AliasHolder(State):\n    a: Box[IntOrStr]\n    b: Box[Names]\n    c: Box[MaybeSeq[int]]\nclass PlainHolder(State):\n    a: Box[int | str]\n    b: Box[Sequence[str]]\n    c: Box[Sequence[int] | None]\n")
+    N.define("class AliasHolder(State):\n    a: Box[IntOrStr]\n    b: Box[Names]\n    c: Box[MaybeSeq[int]]\n    d: Box[IntOrStr | None]\nclass PlainHolder(State):\n    a: Box[int | str]\n    b: Box[Sequence[str]]\n    c: Box[Sequence[int] | None]\n    d: Box[int | str | None]\n")
     ns = N.ns
-    spelled = {"alias": {"a": "Box[IntOrStr](v=1)", "b": "Box[Names](v=('x',))", "c": "Box[MaybeSeq[int]](v=(1,))"}, "plain": {"a": "Box[int | str](v=1)", "b": "Box[Sequence[str]](v=('x',))", "c": "Box[Sequence[int] | None](v=(1,))"}}
+    spelled = {"alias": {"a": "Box[IntOrStr](v=1)", "b": "Box[Names](v=('x',))", "c": "Box[MaybeSeq[int]](v=(1,))", "d": "Box[IntOrStr | None](v=None)"}, "plain": {"a": "Box[int | str](v=1)", "b": "Box[Sequence[str]](v=('x',))", "c": "Box[Sequence[int] | None](v=(1,))", "d": "Box[int | str | None](v=None)"}}
     base = {k: eval(v, ns) for k, v in spelled["alias"].items()}  # noqa: S307
     for holder, own in (("AliasHolder", "alias"), ("PlainHolder", "plain")):
         good = {k: eval(v, ns) for k, v in spelled[own].items()}  # noqa: S307
         del base
         base = good
-        for attr in ("a", "b", "c"):
+        for attr in ("a", "b", "c", "d"):
             for how in ("alias", "plain"):
                 value = eval(spelled[how][attr], ns)  # noqa: S307
                 case = {"alias_spelling": f"{holder}.{attr} <- {spelled[how][attr]}"}
